@@ -367,11 +367,59 @@ def total_writers(ck, P, R="WHO/total-writers"):
     ck.floor(R, n, 8)
 
 
+ONE_SHOT = ("compress", "compress_z", "compress2", "compress2_z", "uncompress", "uncompress_z", "uncompress2", "uncompress2_z")
+
+
+def out_params(ck, P, R="ATOM/out-param-written"):
+    """The one-shot helpers report lengths through pointer parameters (`destLen`, and `sourceLen` of uncompress2): the number of
+    bytes produced / consumed.  Each such parameter is either handed on unchanged to the helper that does the work, or stored
+    through in this function."""
+    n = 0
+    for name in ONE_SHOT:
+        f = P.fn(SYS + name)
+        if not ck.anchor("fn " + name, f):
+            continue
+        ck.use_fn(f)
+        for i, lc in enumerate(f.locals[:1 + f.j.get("arg_count", 8)]):
+            nm, ty = lc.get("name"), lc.get("ty", "")
+            if not nm or not nm.endswith("Len") or not ty.startswith("*mut"):
+                continue
+            n += 1
+            forwarded = False
+            for c in f.live_calls():
+                if c.callee and c.callee.startswith(SYS) and c.callee.split("::")[-1] in ONE_SHOT:
+                    for a in f.call_args(c):
+                        a = mir.strip_casts(a)
+                        if a == ("p", i):
+                            forwarded = True
+            stored = False
+            for bi, si, lhs, rv, st in f.assignments():
+                if not (lhs and lhs.get("p") and lhs["p"][0] == "*" and bi in f.live):
+                    continue
+                base = lhs["l"]
+                if base == i:
+                    stored = True
+                for dbi, dsi, drv in f.defs.get(base, []):
+                    if drv is None:
+                        # defined by a call: look at its arguments
+                        for c in f.calls:
+                            if c.bb == dbi and any(x == ("p", i) for a in f.call_args(c) for x in mir.walk(a)):
+                                stored = True
+                        continue
+                    if any(x == ("p", i) for x in mir.walk(f.rvalue_expr(drv))):
+                        stored = True
+            ck.decide(forwarded or stored, R, "%s:%s" % (name, nm), "length reported through the parameter",
+                      "%s never stores through `%s` (and does not hand it on to the helper that does): the caller reads back the value it "
+                      "passed in instead of the number of bytes moved" % (name, nm), where(f))
+    ck.floor(R, n, 9)
+
+
 def run(ck):
     P = prog("K1")
     ck.configs.add("K1")
     coupdate(ck, P)
     total_writers(ck, P)
+    out_params(ck, P)
     inflate_epilogue(ck, P)
     epilogue_all_paths(ck, P)
     dup_total(ck, P)
